@@ -369,7 +369,11 @@ func Run(cfg Config, setup func() (init func(), threads []Thread, cleanup func()
 		ts = append(ts, g)
 		go func() {
 			defer Exit(g)
-			Start(g)
+			// Scenario threads do not park at their start: the order in which they begin is
+			// irrelevant because (by construction of the scenarios) a thread touches nothing
+			// shared before its first scheduling point or blocking operation.  Goroutines
+			// spawned by the system under test DO park at their first instruction.
+			e.register(g)
 			t.F()
 		}()
 	}
